@@ -187,8 +187,8 @@ type Sim struct {
 type SeedOpt struct {
 	Accounts    int
 	Browsers    int
-	TwoFAProb   float64 // probability that a seeded account has a second factor (if configured)
-	Unconfirmed float64 // probability that a seeded account is unconfirmed (if confirm loaded)
+	TwoFAProb   float64  // probability that a seeded account has a second factor (if configured)
+	Unconfirmed float64  // probability that a seeded account is unconfirmed (if confirm loaded)
 	PIDs        []string // explicit PIDs (hostile corpus); overrides generated ones
 }
 
@@ -498,6 +498,8 @@ func (s *Sim) resolvePw(a *Action, cl string) (string, string) {
 func (s *Sim) newPassword(a *Action) string {
 	ac := s.acct(a)
 	switch a.Cls2 {
+	case "lit":
+		return a.opt("newpw")
 	case "weak":
 		return "abc"
 	case "same":
@@ -565,6 +567,9 @@ func (s *Sim) resolveCookie(a *Action) string {
 	return b64url([]byte(fmt.Sprintf("nobody@x.test;%032d", s.R.Int63())))
 }
 
+// Tokens exposes the mailed-token ledger query to checks.
+func (s *Sim) Tokens(kind, pid string, state int) []*MailTok { return s.tokens(kind, pid, state) }
+
 // tokenFor returns mailed tokens of the wanted kind/state for an account (latest first).
 func (s *Sim) tokens(kind string, pid string, state int) []*MailTok {
 	var out []*MailTok
@@ -591,6 +596,8 @@ func (s *Sim) resolveToken(a *Action, kind string) (string, string) {
 		return nil
 	}
 	switch a.Cls {
+	case "lit":
+		return a.opt("tok"), a.opt("litclass")
 	case "current":
 		if t := first(s.tokens(kind, pid, Live)); t != nil {
 			return t.Token, "current"
